@@ -375,9 +375,29 @@ func limitsFor(n int, explicit []int, rnd *rand.Rand) []int {
 	return ls
 }
 
+func hasF32(t M) bool {
+	switch t["t"] {
+	case "f32":
+		return true
+	case "arr", "obj":
+		for _, e := range t["v"].([]any) {
+			if hasF32(e.(M)) {
+				return true
+			}
+		}
+	}
+	return false
+}
+
 func runCase(c wcase, idx int) []byte {
 	simple, full := build(c.Tree, false)
 	gv, _ := build(c.Tree, true)
+	// gen has no float32: a tree with a float32 leaf is written in its simple form only (the gen form would be a different
+	// input, float64(f), with a different shortest literal)
+	f32 := hasF32(c.Tree)
+	if f32 {
+		gv = simple
+	}
 	rnd := rand.New(rand.NewSource(seed()*1000003 + int64(idx)))
 	var outs []out
 	// ---- oj family: one text for all of these
